@@ -26,7 +26,9 @@ _STATE_RE = re.compile(r"^(pv=\S+) (proto=\S+) nodes=\[(.*)\] ibuf=\[(.*)\] sbuf
 
 
 def split_state(s: str):
-    m = _STATE_RE.match(s)
+    """The parts of a rendered state (the implementation's or the model's); the held commands grouped per node
+    (`gw.canon_state`: where they are kept, and in which order entries of different nodes went in, is not compared)."""
+    m = _STATE_RE.match(gw.canon_state(s))
     if not m:
         return {"pv": s, "proto": "", "nodes": "", "ibuf": "", "sbuf": ""}
     return {"pv": m.group(1), "proto": m.group(2), "nodes": m.group(3), "ibuf": m.group(4), "sbuf": m.group(5)}
@@ -1379,8 +1381,8 @@ def run_c08(ctx) -> Corr:
 def c08_session_scenarios(ctx=None):
     """Real `async with gateway:` statements: 2-3 commands parked for one node (or 2 + 2 for two nodes) x the position of
     the write of node 1's release that does not complete x failed / listener cancelled x the error leaves the
-    statement or is handled inside it x the same object entered again 1-3 times before the node wakes again x with /
-    without a persistence file."""
+    statement or is handled inside it x the commands were sent inside the same statement or an earlier one x the same
+    object entered again 1-3 times before the node wakes again x with / without a persistence file."""
     out = []
     count = 0
     for v in V20:
@@ -1393,7 +1395,8 @@ def c08_session_scenarios(ctx=None):
                             count += 1
                             out.append({"version": v, "commands": [list(c) for c in cmds], "failing_write": fail_at,
                                         "fault": "cancelled" if kind == gw.CANCEL else "failed", "error_left_the_context": escape,
-                                        "persistence_file": store, "reenters": 1 + count % 3})
+                                        "persistence_file": store, "reenters": 1 + count % 3,
+                                        "sent_in_the_same_context": (count // 3) % 2 == 0})
     return out
 
 
@@ -1421,27 +1424,37 @@ async def c08_session_case(sc):
         if path is not None:
             await gw.settle(g, path)
 
-    try:
-        async with g:
-            await entered()
-            for n, c in sc["commands"]:
-                await g.send(Message(n, c, 1, 0, 2, f"v{n}{c}"))
-                sent.append(f"{n};{c};1;0;2;v{n}{c}\n")
-        trace.append({"context": "commands sent", "writes": [list(w) for w in tr.attempts]})
+    async def interrupted_wake():
+        """Node 1 wakes and one write of the release does not complete; the error leaves this coroutine (and with it the
+        `async with` statement around the call) or is handled here."""
         tr.attempts = []
         tr.lines = [wake(1)]
         tr.faults = [False] * sc["failing_write"] + [gw.CANCEL if sc["fault"] == "cancelled" else True]
-        reported = None
+        if sc["error_left_the_context"]:
+            await anext(g.listen())
+            return None
+        try:
+            await anext(g.listen())
+        except (exc.TransportError, asyncio.CancelledError) as e:
+            return e
+        return None
+
+    same = sc.get("sent_in_the_same_context", False)
+    reported = None
+    try:
         try:
             async with g:
                 await entered()
-                if sc["error_left_the_context"]:
-                    await anext(g.listen())
-                else:
-                    try:
-                        await anext(g.listen())
-                    except (exc.TransportError, asyncio.CancelledError) as e:
-                        reported = e
+                for n, c in sc["commands"]:
+                    await g.send(Message(n, c, 1, 0, 2, f"v{n}{c}"))
+                    sent.append(f"{n};{c};1;0;2;v{n}{c}\n")
+                trace.append({"context": "commands sent", "writes": [list(w) for w in tr.attempts]})
+                if same:
+                    reported = await interrupted_wake()
+            if not same:
+                async with g:
+                    await entered()
+                    reported = await interrupted_wake()
         except (exc.TransportError, asyncio.CancelledError) as e:
             reported = e
         trace.append({"context": "node 1 wakes, a write does not complete", "reported": repr(reported), "writes": [list(w) for w in tr.attempts]})
@@ -1466,7 +1479,8 @@ async def c08_session_case(sc):
                 pass
     ok_writes = [w[0] for w in tr.attempts if w[1] and w[0].split(";")[2] == "1"]
     want = type(reported).__name__ if reported is not None else None
-    if reported is None or (sc["fault"] == "cancelled") != isinstance(reported, asyncio.CancelledError):
+    interrupted = any(not w[1] for w in tr.attempts)
+    if interrupted and (reported is None or (sc["fault"] == "cancelled") != isinstance(reported, asyncio.CancelledError)):
         return f"an interrupted write during the release was not reported to the caller of listen as such (reported: {want})", trace
     if sorted(ok_writes) != sorted(sent):
         lost = [x for x in sent if x not in ok_writes]
